@@ -183,6 +183,11 @@ class K:
         w = v * 2
         self.s += w
         return self.s
+    def text(self, v):
+        t = """line one
+        line two, indented like the method body"""
+        u = v
+        return t, u
 '''
 
 
@@ -225,6 +230,7 @@ def _cases(mod):
         ("p_fallthrough", mod.p_fallthrough, lambda: ({},), None),
         ("p_finally_return", mod.p_finally_return, lambda: (), None),
         ("K.meth", mod.K.meth, lambda: (mod.K(), 4), None),
+        ("K.text", mod.K.text, lambda: (mod.K(), 4), None),
     ]
 
 
@@ -322,6 +328,6 @@ def native_checks(tier, seed):
                   "print(r['summary'])\nsys.exit(1 if r['violations'] else 0)\n")
         viol.append({"name": "C01/native/plain-vs-probed", "model": {"program": nm, "probe": cfg, "plain": repr(a)[:600], "probed": repr(b)[:600], "count": len(bad)},
                      "goal": f"{len(bad)} (program, probe) pairs behave differently, e.g. {nm} under 'target > {cfg}': plain={a!r} probed={b!r}"[:900], "path": "", "script": script})
-    return {"bounded": [{"unit": "native:plain-vs-probed", "bound": "26 corpus programs x {all variables, each of the first variables, #value} non-overriding probes, fixed inputs",
+    return {"bounded": [{"unit": "native:plain-vs-probed", "bound": "27 corpus programs x {all variables, each of the first variables, #value} non-overriding probes, fixed inputs",
                          "obligations": n, "discharged": n - len(bad)}],
             "known": [], "violations": viol, "summary": {"runs": n, "differences": len(bad), "first": None if not bad else [bad[0][0], bad[0][1], repr(bad[0][2])[:300], repr(bad[0][3])[:300]]}}
